@@ -157,6 +157,18 @@ def decoy_spec(s):
     return dict(s, labels=labels2, base=s.get("base", 1) + 1)
 
 
+def decoy_rotated(s):
+    """a second look-alike: the same dimension names, labels and kinds with the dimensions in ROTATED order (every name sits at another
+    position); None below two dimensions"""
+    nd = len(s["dims"])
+    if nd < 2:
+        return None
+    rot = lambda l: list(l[1:]) + list(l[:1])
+    d = dict(s, dims=rot(s["dims"]), labels=rot(s["labels"]), kinds=rot(s["kinds"]), base=s.get("base", 1) + 2)
+    d.pop("nan", None)
+    return d
+
+
 def edit_in_place(a, ra, s, how):
     """edit the array through the public API and return the correspondingly edited reference (None when the edit does not apply)"""
     if not ra.ndim:
@@ -286,11 +298,19 @@ def _build_impl(s):
         elif var == "rslice":
             # a REVERSED slice of a bigger array that was used before (sorted, re-indexed, aligned, sliced by label): what the library
             # remembers about the parent's axes (ordering) must not be handed to a child whose labels run the other way
-            big_labels = [[extra_label(l, k)] + list(l)[::-1] for l, k in zip(s["labels"], s["kinds"])]
+            # parent labels: the reversed labels followed by one more label that CONTINUES their order when they are sorted (so that a sorted
+            # child comes from a parent sorted the other way)
+            def _cont(l, k):
+                r = list(l)[::-1]
+                lo, hi = {"i": (1, 990), "f": (-9.5, 99.5), "O": ("A", "zzz")}[k]
+                if len(r) >= 2 and all(r[i] > r[i + 1] for i in range(len(r) - 1)):
+                    return r + [lo]
+                return r + [hi]
+            big_labels = [_cont(l, k) for l, k in zip(s["labels"], s["kinds"])]
             big = np.zeros([len(l) for l in big_labels], dtype=vals.dtype)
             if vals.dtype == object:
                 big[...] = "pad"
-            big[tuple(slice(1, n + 1) for n in vals.shape)] = vals[tuple(slice(None, None, -1) for _ in vals.shape)]
+            big[tuple(slice(0, n) for n in vals.shape)] = vals[tuple(slice(None, None, -1) for _ in vals.shape)]
             b = DimArray(big, axes=_axes(s, big_labels))
             for i, ax in enumerate(b.axes):
                 try:
@@ -301,7 +321,7 @@ def _build_impl(s):
                     b.take({ax.name: slice(big_labels[i][1], None)}, indexing="label")
                 except Exception:
                     pass
-            a = b.take(tuple(slice(n, 0, -1) for n in vals.shape), indexing="position")
+            a = b.take(tuple(slice(n - 1, None, -1) if n else slice(0, 0) for n in vals.shape), indexing="position")
         elif var == "shallow":
             # a shallow copy (copy(shallow=True), the documented way "to overwrite attributes without affecting the initial array") of an array
             # that was USED under other labels - every along-axis method called once - and that then gets its own axes
